@@ -127,6 +127,17 @@ WidenNeg(ty, init, wide, other, route) ==
      [] route = "array" -> <<Set("arr", Hide(WArr(WMut(wide)), ArrE(<<V("c")>>))), Asg("=", At(V("arr"), I(0)), other)>>
      [] route = "closure" -> <<FnDecl("get", <<>>, WMut(wide), <<Ret(V("c"))>>), Asg("=", CallE(V("get"), <<>>), other)>>)
   \o <<Set("z", WidenUse(ty)), V("z")>>
+\* a handle whose type is a UNION of cell types (element of a mixed cell array, `for' variable over it, union-typed
+\* parameter) may only be assigned a value EVERY member can store
+UnionCellNeg(route) ==
+  <<Set("hits", MutE(WInt, I(0))), Set("ratio", MutE(WFloat, F(1)))>> \o
+  (CASE route = "for" -> <<For("c", IterE(ArrE(<<V("hits"), V("ratio")>>)), Block(<<Asg("=", V("c"), I(0))>>))>>
+     [] route = "index" -> <<Set("cs", ArrE(<<V("hits"), V("ratio")>>)), Asg("=", At(V("cs"), I(1)), I(0))>>
+     [] route = "param" -> <<FnDecl("rst", <<P("c", WMulti(<<WMut(WInt), WMut(WFloat)>>))>>, WVoid, <<Asg("=", V("c"), I(0)), Ret0>>),
+                             CallE(V("rst"), <<V("ratio")>>)>>
+     [] route = "compound" -> <<For("c", IterE(ArrE(<<V("hits"), V("ratio")>>)), Block(<<Asg("+=", V("c"), I(1))>>))>>)
+  \o <<Set("z", Asg("+=", V("ratio"), F(1))), V("z")>>
+UnionCellSeq == <<"for", "index", "param", "compound">>
 WidenSeq == SetToSeq({<<n, r>> : n \in 1..3, r \in {"param", "cellcell", "array", "closure"}})
 WidenOf(n) == CASE n = 1 -> <<WInt, I(1), IF_, F(5)>> [] n = 2 -> <<WStr, S(<<98>>), WMulti(<<WStr, WInt>>), I(3)>>
                 [] n = 3 -> <<WArr(WInt), ArrE(<<I(1)>>), WArr(IF_), ArrE(<<F(5)>>)>>
@@ -285,6 +296,8 @@ Emit ==
         \o [i \in 1..Len(WidenSeq) |-> LET w == WidenOf(WidenSeq[i][1]) IN
                [id |-> "c13-neg-widen-" \o ToString(WidenSeq[i][1]) \o "-" \o WidenSeq[i][2], suite |-> "c13", negative |-> TRUE,
                 prog |-> WidenNeg(w[1], w[2], w[3], w[4], WidenSeq[i][2]),
-                exp |-> [status |-> "rejected", v |-> VoidV, log |-> <<>>]]])
+                exp |-> [status |-> "rejected", v |-> VoidV, log |-> <<>>]]]
+        \o [i \in 1..Len(UnionCellSeq) |-> [id |-> "c13-neg-union-of-cells-" \o UnionCellSeq[i], suite |-> "c13", negative |-> TRUE,
+                prog |-> UnionCellNeg(UnionCellSeq[i]), exp |-> [status |-> "rejected", v |-> VoidV, log |-> <<>>]]])
   /\ PrintT(<<"CASES", N, Len(NegSeq)>>)
 =============================================================================
